@@ -277,13 +277,19 @@ func gen(r *vlib.R) iter.Seq[Case] {
 	return func(yield func(Case) bool) {
 		for size := 0; size <= maxSize; size++ {
 			for ss := 1; ss <= maxSS; ss++ {
+				nsub := (size + ss - 1) / ss
 				for ms := 0; ms <= maxSub; ms++ {
+					if !r.Thorough() && ms > 0 && (nsub+1)/2 <= ms {
+						continue // quick: a limit that no set of missing subranges of this object can exceed
+					}
 					if !yield(Case{Size: size, SS: ss, MaxSub: ms, MaxGet: 100}) {
 						return
 					}
 				}
-				if !yield(Case{Size: size, SS: ss, MaxSub: 0, MaxGet: 2}) {
-					return
+				if r.Thorough() || ss == 1 { // MaxCacheableSize below the object size (Get does not depend on the subrange size)
+					if !yield(Case{Size: size, SS: ss, MaxSub: 0, MaxGet: 2}) {
+						return
+					}
 				}
 			}
 		}
